@@ -226,6 +226,9 @@ def main():
           Q.quantized_bits(8, 2, 1, use_variables=True, qnoise_factor=f0[3])]
     if si % 3 == 0:
       qs[3].build(use_variables=True)   # already variable-backed when training begins
+    if si % 3 == 1:
+      qs[0](tf.constant([0.25, -0.5]))  # used before training: built with a python-float factor, the scheduler has to rebuild it
+      qs[2](tf.constant([0.25, -0.5]))
     noknob = Q.quantized_tanh(4)
     l1, l2, l3 = Lyr(), Lyr(), Lyr()
     l1.quantizers = [qs[0], None, qs[1]] if False else [qs[0], qs[1], noknob]
@@ -273,9 +276,9 @@ def main():
             rep.violation(f"sched-initial-{si}", "quantizers are not reset to factor 0 before the first update", {"schedule": [start, finish, expo, uf, by_epoch, init]})
         continue
       # python-float quantizers hold the float64 value, the variable-backed one its float32 rounding
-      v64 = vals[0]
-      # a quantizer that is already variable-backed holds the float32 rounding of the value
-      if not (vals[1] == v64 and vals[2] == v64 and vals[3] in (v64, float(np.float32(v64)))):
+      # a quantizer that is variable-backed (built before training, or rebuilt by the scheduler) holds the float32 rounding of the value
+      v64 = cbv if cbv is not None else vals[0]
+      if not all(v in (v64, float(np.float32(v64))) for v in vals):
         rep.violation(f"sched-not-all-{si}", f"not every quantizer received the same factor at step {freq}: {vals}",
                       {"schedule": [start, finish, expo, uf, by_epoch, init], "hooks": hooks})
       if v64 < prev:
